@@ -362,8 +362,9 @@ pub struct SignRemoteCommitmentTx {
 }
 
 /// LDK message to sign a local HTLC transaction.
+// NOTE: 20 is SignRemoteHtlcTx; the LDK variants live at 1000 + the CLN id (SignLocalHtlcTx is 16)
 #[derive(SerBolt, Debug, Encodable, Decodable)]
-#[message_id(20)]
+#[message_id(1016)]
 pub struct SignLocalHtlcTx2 {
     pub tx: WithSize<Transaction>,
     pub input: u32,
